@@ -2,7 +2,7 @@
 //! `local_channel::mpsc` (C16) driven through the line protocol, with counting wakers.
 //!
 //! ```text
-//! case <name> counter <cap> [probe]   acquire h | drop g | dropP g | avail h w | clone h | total h | dropH h | dbg h | dbgG g
+//! case <name> counter <cap> [probe]   acquire h | drop g | dropP g | avail h w | availG h g | clone h | total h | dropH h | dbg h | dbgG g
 //! case <name> lw [default]            reg w | wake | take | dbg
 //! case <name> chan                    send i x | ssend i x | clone i | dropS i | dropSP i | close i | poll w | recv w | recvNew w |
 //!                                     recvDrop | rsender | dropR | dropRP | b <op> | clonefrom <a|b> i <a|b> j | sready i w | sflush i w | sclose i w | dbgS i | dbgR
@@ -173,6 +173,63 @@ fn install_panic_hook() {
     }));
 }
 
+/// A waker whose **drop** has a side effect, unless it was woken first: it stands for the last owner of
+/// a parked task that, dropped, releases what it holds.  A fresh one is built per registration, so the
+/// clone stored in the `LocalWaker` is the last one once the harness has dropped its own.
+/// * id `6` (`lw` engine): the drop calls `wake()` on the same `LocalWaker`;
+/// * id `100 + g` (counter engine): the task owns guard `g` (parked in `DROPFX.held`); the drop releases it.
+struct DW {
+    id: usize,
+    woken: std::sync::atomic::AtomicBool,
+}
+impl DW {
+    fn fresh(id: usize) -> (Waker, *const ()) {
+        let a = Arc::new(DW { id, woken: std::sync::atomic::AtomicBool::new(false) });
+        let p = Arc::as_ptr(&a) as *const ();
+        (Waker::from(a), p)
+    }
+    fn woken(&self) {
+        self.woken.store(true, Ordering::SeqCst);
+        DROPFX.with(|d| d.borrow_mut().woken.push(self.id));
+    }
+}
+impl Wake for DW {
+    fn wake(self: Arc<Self>) {
+        self.woken();
+    }
+    fn wake_by_ref(self: &Arc<Self>) {
+        self.woken();
+    }
+}
+impl Drop for DW {
+    fn drop(&mut self) {
+        if self.woken.load(Ordering::SeqCst) {
+            return; // the task was woken: it lives on
+        }
+        if self.id == 6 {
+            if let Some(lw) = INLINE.with(|x| x.borrow().lw.clone()) {
+                lw.wake();
+            }
+        } else if self.id >= 100 {
+            // nothing of the registry stays borrowed while the guard's destructor runs
+            let g = DROPFX.with(|d| d.borrow_mut().held.remove(&(self.id - 100)));
+            if let Some(guard) = g {
+                drop(guard);
+                DROPFX.with(|d| d.borrow_mut().freed.push(self.id - 100));
+            }
+        }
+    }
+}
+#[derive(Default)]
+struct DropFx {
+    woken: Vec<usize>,
+    held: HashMap<usize, CounterGuard>,
+    freed: Vec<usize>,
+}
+thread_local! {
+    static DROPFX: RefCell<DropFx> = RefCell::new(DropFx::default());
+}
+
 struct Wakers {
     cws: Vec<Arc<CW>>,
     wakers: Vec<Waker>,
@@ -201,6 +258,8 @@ impl Wakers {
             }
             self.seen[i] = now;
         }
+        v.extend(DROPFX.with(|d| std::mem::take(&mut d.borrow_mut().woken)));
+        v.sort();
         v
     }
     /// number of times the oracle's probe waker was woken since the last call
@@ -255,6 +314,8 @@ struct CounterEng {
 }
 
 struct LwEng {
+    /// the data pointer of the drop-waking waker (id 6) registered last
+    dw_ptr: *const (),
     lw: Rc<LocalWaker>,
     outstanding: Option<usize>,
 }
@@ -342,6 +403,20 @@ fn teardown(eng: &mut Eng, wk: &mut Wakers, rep: &mut Report, t3: &mut T3) {
     match std::mem::replace(eng, Eng::Idle) {
         Eng::Idle => {}
         Eng::Counter(mut e) => {
+            // the guards owned by parked tasks go first (their wakers then find nothing to release)
+            let held: Vec<CounterGuard> = DROPFX.with(|d| {
+                let mut d = d.borrow_mut();
+                d.freed.clear();
+                d.held.drain().map(|(_, g)| g).collect()
+            });
+            for g in held {
+                if let Err(m) = catch(move || drop(g)) {
+                    t3.fail(rep, "C17", format!("dropping a parked task's guard at the end of the case panicked: {m}"));
+                } else {
+                    e.live -= 1;
+                }
+                counter_totals(&e, "the end-of-case drop of a guard", rep, t3);
+            }
             // newest first, as a scope would
             for g in (0..e.guards.len()).rev() {
                 if let Some(guard) = e.guards[g].take() {
@@ -385,6 +460,11 @@ fn teardown(eng: &mut Eng, wk: &mut Wakers, rep: &mut Report, t3: &mut T3) {
         }
     }
     // wakes caused by the teardown belong to nobody
+    DROPFX.with(|d| {
+        let mut d = d.borrow_mut();
+        d.freed.clear();
+        d.woken.clear();
+    });
     wk.delta();
     wk.probe_delta();
 }
@@ -420,7 +500,7 @@ fn run(a: &Args) {
                 ["case", _, "lw"] | ["case", _, "lw", "default"] => {
                     let lw = Rc::new(if ws.len() == 3 { LocalWaker::new() } else { LocalWaker::default() });
                     INLINE.with(|x| x.borrow_mut().lw = Some(lw.clone()));
-                    Some(Eng::Lw(LwEng { lw, outstanding: None }))
+                    Some(Eng::Lw(LwEng { dw_ptr: std::ptr::null(), lw, outstanding: None }))
                 }
                 ["case", _, "chan"] => {
                     let one = || {
@@ -519,7 +599,7 @@ fn counter_probe(e: &CounterEng, after: &str, wk: &mut Wakers, rep: &mut Report,
                     format!("after {after}: available through handle {h} answered false with {} live guards and capacity {}", e.live, e.cap),
                 );
             }
-        } else if let Some(w) = e.pend {
+        } else if let Some(w) = e.pend.filter(|w| *w < NW + NI) {
             let cx = Context::from_waker(&wk.wakers[w]);
             if c.available(&cx) {
                 t3.fail(
@@ -530,6 +610,53 @@ fn counter_probe(e: &CounterEng, after: &str, wk: &mut Wakers, rep: &mut Report,
             }
         }
     }
+}
+
+/// What the property demands of a guard release (a `drop`, or the release made by a displaced
+/// guard-owning waker) beyond the wake-up itself, and the part of the observation that reports it:
+/// the wake-up comes *when the count is below the capacity* — a woken task that polls inline finds
+/// the slot freed — and what a taking task does there counts like any other call.
+fn after_release(e: &mut CounterEng, op: &str, expect_wake: Option<usize>, rep: &mut Report, t3: &mut T3) -> String {
+    // … and the wake-up comes *when the count is below the capacity*: a woken task that polls
+    // inline (re-enters the counter from inside `wake()`) finds the slot freed
+    let saw: Vec<(usize, usize, bool)> = INLINE.with(|x| std::mem::take(&mut x.borrow_mut().saw));
+    let want_saw: Vec<(usize, usize, bool)> = expect_wake.filter(|w| (NW..NW + NI).contains(w)).map(|w| (w, e.live, true)).into_iter().collect();
+    if saw != want_saw {
+        t3.fail(
+            rep,
+            "C17",
+            format!(
+                "inside the wake-up of this `{op}` the woken task(s) polled inline and saw (waker, total, available) = {saw:?} with {} live guards after the drop (capacity {}): the property demands the wake-up when the count is below the capacity: {want_saw:?}",
+                e.live, e.cap
+            ),
+        );
+    }
+    let mut head = String::new();
+    if !saw.is_empty() {
+        head += " saw=";
+        head += &saw.iter().map(|(_, t, b)| format!("{t},{}", *b as u8)).collect::<Vec<_>>().join(";");
+    }
+    // a taking task took the freed slot inside its wake-up and the next task asked: both are
+    // ordinary calls, made before the drop returned, and count like any other
+    let took: Vec<(usize, CounterGuard, bool)> = INLINE.with(|x| std::mem::take(&mut x.borrow_mut().took));
+    let want_taker: Option<usize> = expect_wake.filter(|w| (TAKER0..NW + NI).contains(w) && saw == want_saw);
+    if took.iter().map(|t| t.0).collect::<Vec<_>>() != want_taker.into_iter().collect::<Vec<_>>() {
+        t3.fail(rep, "C17", format!("inside the wake-up of this `{op}` the taking tasks {:?} took a slot; woken (and told a slot is free): {want_taker:?}", took.iter().map(|t| t.0).collect::<Vec<_>>()));
+    }
+    for (id, g, b) in took {
+        e.guards.push(Some(g));
+        e.live += 1;
+        let want = e.live < e.cap;
+        if b != want {
+            t3.fail(rep, "C17", format!("asked from inside a wake-up, available answered {b} with {} live guards and capacity {}", e.live, e.cap));
+        }
+        if !want {
+            // the task registered during the wake callback is the one the next release must wake
+            e.pend = Some(id - NW);
+        }
+        head += &format!(" took={} next={}", e.guards.len() - 1, b as u8);
+    }
+    head
 }
 
 fn counter_op(e: &mut CounterEng, ws: &[&str], wk: &mut Wakers, rep: &mut Report, t3: &mut T3) -> Option<String> {
@@ -559,66 +686,61 @@ fn counter_op(e: &mut CounterEng, ws: &[&str], wk: &mut Wakers, rep: &mut Report
                 // the same drop while the thread unwinds from a panic that is then caught
                 drop_unwinding(guard, "C17", rep);
             }
-            // … and the wake-up comes *when the count is below the capacity*: a woken task that polls
-            // inline (re-enters the counter from inside `wake()`) finds the slot freed
-            let saw: Vec<(usize, usize, bool)> = INLINE.with(|x| std::mem::take(&mut x.borrow_mut().saw));
-            let want_saw: Vec<(usize, usize, bool)> = expect_wake.filter(|w| *w >= NW).map(|w| (w, e.live, true)).into_iter().collect();
-            if saw != want_saw {
-                t3.fail(
-                    rep,
-                    "C17",
-                    format!(
-                        "inside the wake-up of this `{op}` the woken task(s) polled inline and saw (waker, total, available) = {saw:?} with {} live guards after the drop (capacity {}): the property demands the wake-up when the count is below the capacity: {want_saw:?}",
-                        e.live, e.cap
-                    ),
-                );
-            }
-            let mut head = String::from("dropped");
-            if !saw.is_empty() {
-                head += " saw=";
-                head += &saw.iter().map(|(_, t, b)| format!("{t},{}", *b as u8)).collect::<Vec<_>>().join(";");
-            }
-            // a taking task took the freed slot inside its wake-up and the next task asked: both are
-            // ordinary calls, made before the drop returned, and count like any other
-            let took: Vec<(usize, CounterGuard, bool)> = INLINE.with(|x| std::mem::take(&mut x.borrow_mut().took));
-            let want_taker: Option<usize> = expect_wake.filter(|w| *w >= TAKER0 && saw == want_saw);
-            if took.iter().map(|t| t.0).collect::<Vec<_>>() != want_taker.into_iter().collect::<Vec<_>>() {
-                t3.fail(rep, "C17", format!("inside the wake-up of this `{op}` the taking tasks {:?} took a slot; woken (and told a slot is free): {want_taker:?}", took.iter().map(|t| t.0).collect::<Vec<_>>()));
-            }
-            for (id, g, b) in took {
-                e.guards.push(Some(g));
-                e.live += 1;
-                let want = e.live < e.cap;
-                if b != want {
-                    t3.fail(rep, "C17", format!("asked from inside a wake-up, available answered {b} with {} live guards and capacity {}", e.live, e.cap));
-                }
-                if !want {
-                    // the task registered during the wake callback is the one the next release must wake
-                    e.pend = Some(id - NW);
-                }
-                head += &format!(" took={} next={}", e.guards.len() - 1, b as u8);
-            }
-            head
+            let tail = after_release(e, op, expect_wake, rep, t3);
+            String::from("dropped") + &tail
         }
-        ["avail", h, w] => {
+        [op @ ("avail" | "availG"), h, w] => {
             let h = num(h).filter(|h| has(e, *h))?;
-            let w = num(w).filter(|w| *w < NW + NI)?;
-            if w >= NW {
+            // `availG h g`: asked by a task that owns the live guard g; its waker is `100 + g`
+            let (w, fresh): (usize, Option<Waker>) = if *op == "avail" {
+                (num(w).filter(|w| *w < NW + NI)?, None)
+            } else {
+                let g = num(w).filter(|g| *g < e.guards.len() && e.guards[*g].is_some())?;
+                let guard = e.guards[g].take().unwrap();
+                DROPFX.with(|d| d.borrow_mut().held.insert(g, guard));
+                (100 + g, Some(DW::fresh(100 + g).0))
+            };
+            if (NW..NW + NI).contains(&w) {
                 // the inline-polling task owns a handle of its own: a clone of the one it asks through
                 let own = Rc::new(e.handles[h].as_ref().unwrap().clone());
                 let old = INLINE.with(|x| x.borrow_mut().task[w - NW].replace(own));
                 drop(old);
             }
-            let cx = Context::from_waker(&wk.wakers[w]);
-            let b = e.handles[h].as_ref().unwrap().available(&cx);
+            let displaced = e.pend;
+            let b = {
+                let waker: &Waker = fresh.as_ref().unwrap_or_else(|| &wk.wakers[w]);
+                e.handles[h].as_ref().unwrap().available(&Context::from_waker(waker))
+            };
+            if let (true, true) = (b, w >= 100) {
+                // not parked: the task keeps running and its guard is an ordinary guard again
+                let back = DROPFX.with(|d| d.borrow_mut().held.remove(&(w - 100)));
+                e.guards[w - 100] = back;
+            }
+            drop(fresh); // if it was registered, the LocalWaker now holds the last clone
             let want = e.live < e.cap;
             if b != want {
                 t3.fail(rep, "C17", format!("available answered {b} with {} live guards and capacity {}", e.live, e.cap));
             }
+            let mut head = format!("avail {}", b as u8);
             if !want {
                 e.pend = Some(w);
+                // `register` stores the new waker and only then lets go of the displaced one: if that was
+                // the last owner of a task holding a guard, the guard is released now — with the new waker
+                // in place, so if a slot is freed the task just answered "unavailable" is the one woken
+                if let Some(gd) = displaced.filter(|d| *d >= 100).map(|d| d - 100) {
+                    if e.live == e.cap {
+                        expect_wake = e.pend.take();
+                    }
+                    e.live -= 1;
+                    head += &format!(" freed={gd}");
+                    let freed: Vec<usize> = DROPFX.with(|d| std::mem::take(&mut d.borrow_mut().freed));
+                    if freed != vec![gd] {
+                        t3.fail(rep, "C17", format!("the displaced waker owned guard {gd}; guards released while it was dropped: {freed:?}"));
+                    }
+                    head += &after_release(e, op, expect_wake, rep, t3);
+                }
             }
-            format!("avail {}", b as u8)
+            head
         }
         ["clone", h] => {
             let h = num(h).filter(|h| has(e, *h))?;
@@ -672,6 +794,16 @@ fn counter_op(e: &mut CounterEng, ws: &[&str], wk: &mut Wakers, rep: &mut Report
             ),
         );
     }
+    // a guard-owning task that was woken lives on: its guard is an ordinary guard again
+    for id in woke.iter().filter(|x| **x >= 100) {
+        if let Some(guard) = DROPFX.with(|d| d.borrow_mut().held.remove(&(id - 100))) {
+            e.guards[id - 100] = Some(guard);
+        }
+    }
+    let stray_freed: Vec<usize> = DROPFX.with(|d| std::mem::take(&mut d.borrow_mut().freed));
+    if !stray_freed.is_empty() {
+        t3.fail(rep, "C17", format!("`{}` made a parked task's waker go away un-woken: its guards {stray_freed:?} were released", ws[0]));
+    }
     let stray_saw: Vec<(usize, usize, bool)> = INLINE.with(|x| std::mem::take(&mut x.borrow_mut().saw));
     if !stray_saw.is_empty() {
         t3.fail(rep, "C17", format!("`{}` woke an inline-polling task outside a releasing drop: it saw (waker, total, available) = {stray_saw:?}", ws[0]));
@@ -688,42 +820,61 @@ fn counter_op(e: &mut CounterEng, ws: &[&str], wk: &mut Wakers, rep: &mut Report
 }
 
 // ---- C17: LocalWaker -----------------------------------------------------------------------------
+/// after a wake-up in the `lw` engine: the callback of a re-entrant waker found the cell empty (`wake`
+/// takes the waker out first) and what it registered is what is registered now
+fn lw_after_wake(e: &mut LwEng, woken: Option<usize>, what: &str, rep: &mut Report, t3: &mut T3) -> String {
+    let rereg: Vec<(usize, bool)> = INLINE.with(|x| std::mem::take(&mut x.borrow_mut().rereg));
+    let want: Vec<(usize, bool)> = woken.filter(|w| *w == NW || *w == NW + 1).map(|w| (w, false)).into_iter().collect();
+    if rereg != want {
+        t3.fail(rep, "C17", format!("inside `{what}` the re-entrant wakers registered again (waker, register returned) = {rereg:?}; the property demands {want:?}"));
+    }
+    match woken {
+        Some(w) if w == NW => e.outstanding = Some(1),
+        Some(w) if w == NW + 1 => e.outstanding = Some(w),
+        _ => {}
+    }
+    match rereg.first() {
+        Some((_, was)) => format!(" rereg={}", *was as u8),
+        None => String::new(),
+    }
+}
+
 fn lw_op(e: &mut LwEng, ws: &[&str], wk: &mut Wakers, rep: &mut Report, t3: &mut T3) -> Option<String> {
     let mut expect_wake: Option<usize> = None;
     let head: String = match ws {
         ["reg", w] => {
-            // 4, 5: re-entrant wakers (woken, they register waker 1 / themselves on this LocalWaker)
-            let w = num(w).filter(|w| *w < NW + 2)?;
-            let was = e.lw.register(&wk.wakers[w]);
-            if was != e.outstanding.is_some() {
-                t3.fail(rep, "C17", format!("register returned {was} but a waker was registered before: {}", e.outstanding.is_some()));
+            // 4, 5: re-entrant wakers (woken, they register waker 1 / themselves on this LocalWaker);
+            // 6: a fresh waker whose drop, un-woken, calls wake() on this LocalWaker
+            let w = num(w).filter(|w| *w < NW + 3)?;
+            let displaced = e.outstanding;
+            let was = if w == 6 {
+                let (waker, p) = DW::fresh(6);
+                e.dw_ptr = p;
+                e.lw.register(&waker)
+            } else {
+                e.lw.register(&wk.wakers[w])
+            };
+            if was != displaced.is_some() {
+                t3.fail(rep, "C17", format!("register returned {was} but a waker was registered before: {}", displaced.is_some()));
             }
             e.outstanding = Some(w);
-            format!("registered {}", was as u8)
+            let mut head = format!("registered {}", was as u8);
+            if displaced == Some(6) {
+                // `register` is `replace`: the new waker is in place when the displaced one is dropped, so
+                // the wake made by that drop wakes the waker that is being registered
+                expect_wake = e.outstanding.take();
+                head += &lw_after_wake(e, expect_wake, "register (the displaced waker's drop calls wake)", rep, t3);
+            }
+            head
         }
         ["wake"] => {
             e.lw.wake();
             expect_wake = e.outstanding.take();
-            // the callback of a re-entrant waker found the cell empty (`wake` takes the waker out first)
-            // and what it registered is what is registered now
-            let rereg: Vec<(usize, bool)> = INLINE.with(|x| std::mem::take(&mut x.borrow_mut().rereg));
-            let want: Vec<(usize, bool)> = expect_wake.filter(|w| *w >= NW).map(|w| (w, false)).into_iter().collect();
-            if rereg != want {
-                t3.fail(rep, "C17", format!("inside `wake` the re-entrant wakers registered again (waker, register returned) = {rereg:?}; the property demands {want:?}"));
-            }
-            match expect_wake {
-                Some(w) if w == NW => e.outstanding = Some(1),
-                Some(w) if w > NW => e.outstanding = Some(w),
-                _ => {}
-            }
-            match rereg.first() {
-                Some((_, was)) => format!("done rereg={}", *was as u8),
-                None => "done".into(),
-            }
+            String::from("done") + &lw_after_wake(e, expect_wake, "wake", rep, t3)
         }
         ["take"] => {
             let got = e.lw.take();
-            let id = got.as_ref().map(|w| wk.id_of(w));
+            let id = got.as_ref().map(|w| if w.data() == e.dw_ptr { Some(6) } else { wk.id_of(w) });
             let want = e.outstanding.take();
             let shown = match id {
                 None => "-".to_string(),
@@ -1215,6 +1366,85 @@ fn gen_c17_scenarios(w: &mut dyn Write, n: &mut u64) {
             }
         }
     }
+    // every Counter handle is dropped first; the guards alone keep the counter alive and still release
+    for cap in 1..=2usize {
+        for over in 0..=1usize {
+            for clones in 0..=1usize {
+                let total = cap + over;
+                let mut ops: Vec<String> = (0..clones).map(|_| "clone 0".to_string()).collect();
+                ops.extend((0..total).map(|k| format!("acquire {}", k % (clones + 1))));
+                ops.push(format!("avail {clones} 1"));
+                for h in 0..=clones {
+                    ops.push(format!("dropH {h}"));
+                }
+                ops.push("dbgG 0".into());
+                for g in 0..total {
+                    ops.push(format!("{} {g}", if g % 2 == 1 { "dropP" } else { "drop" }));
+                }
+                *n += 1;
+                emit(w, &format!("case sc-nohandle-{cap}-{over}-{clones} counter {cap}"), &ops);
+            }
+        }
+    }
+    // a parked task that owns a guard (availG): the next task answered "unavailable" displaces its waker,
+    // the task goes, its guard is released — with the new waker already registered: the new task is woken
+    for probe in [false, true] {
+        for cap in 1..=3usize {
+            for over in 0..=1usize {
+                for newer in ["avail 0 1", "avail 0 4", "avail 0 6", "availG 0 1"] {
+                    let total = cap + over;
+                    if newer == "availG 0 1" && total < 2 {
+                        continue;
+                    }
+                    let mut ops: Vec<String> = (0..total).map(|_| "acquire 0".to_string()).collect();
+                    ops.push("availG 0 0".into());
+                    ops.push("drop 0".into()); // bad-op: the guard belongs to the parked task
+                    ops.push(newer.to_string());
+                    ops.push("total 0".into());
+                    ops.push("avail 0 2".into());
+                    for g in 1..total {
+                        ops.push(format!("drop {g}"));
+                    }
+                    ops.push("total 0".into());
+                    ops.push("avail 0 3".into());
+                    *n += 1;
+                    emit(
+                        w,
+                        &format!("case sc-gw-{cap}-{over}-{}{} counter {cap}{}", newer.replace(' ', ""), if probe { "p" } else { "" }, if probe { " probe" } else { "" }),
+                        &ops,
+                    );
+                }
+                // the guard-owning task is woken by an ordinary release instead: it lives on, guard and all
+                let total = cap + over;
+                let mut ops: Vec<String> = (0..total).map(|_| "acquire 0".to_string()).collect();
+                ops.push(format!("availG 0 {}", total - 1));
+                for g in 0..=over {
+                    ops.push(format!("drop {g}"));
+                }
+                ops.push(format!("dbgG {}", total - 1));
+                ops.push(format!("drop {}", total - 1));
+                ops.push("total 0".into());
+                *n += 1;
+                emit(w, &format!("case sc-gw-woken-{cap}-{over}{} counter {cap}{}", if probe { "p" } else { "" }, if probe { " probe" } else { "" }), &ops);
+            }
+        }
+    }
+    for (k, ops) in [
+        vec!["reg 6", "reg 0", "wake"],
+        vec!["reg 6", "reg 4", "wake", "wake"],
+        vec!["reg 6", "reg 5", "wake", "take"],
+        vec!["reg 6", "reg 6", "reg 1", "wake"],
+        vec!["reg 6", "wake", "reg 2", "wake"],
+        vec!["reg 6", "take", "reg 3", "reg 6", "dbg", "reg 0", "reg 1", "wake"],
+    ]
+    .iter()
+    .enumerate()
+    {
+        for how in ["lw", "lw default"] {
+            *n += 1;
+            emit(w, &format!("case sc-lwdrop-{k}{} {how}", if how == "lw" { "" } else { "d" }), &ops.iter().map(|s| s.to_string()).collect::<Vec<_>>());
+        }
+    }
     for (k, ops) in [
         vec!["reg 4", "wake", "wake", "wake"],
         vec!["reg 4", "wake", "reg 0", "wake"],
@@ -1481,6 +1711,12 @@ fn gen_counter_inline_exhaustive(w: &mut dyn Write, cap: usize, len: usize, n: &
             rec(w, st, cap, len, n);
             st.ops.pop();
         }
+        // asked by a task that owns the oldest live guard: displaced un-woken, it releases that guard
+        if let Some(&g) = st.live.first() {
+            st.ops.push(format!("availG 0 {g}"));
+            rec(w, st, cap, len, n);
+            st.ops.pop();
+        }
     }
     let mut st = St { ops: vec![], live: vec![], next_guard: 0 };
     rec(w, &mut st, cap, len, n);
@@ -1545,6 +1781,11 @@ fn gen_counter_random(w: &mut dyn Write, rng: &mut Rng, cases: usize, max_len: u
                 let k = rng.below(live.len());
                 writeln!(w, "{} {}", if rng.chance(1, 5) { "dropP" } else { "drop" }, live.remove(k)).unwrap();
             } else if r < 82 {
+                if !live.is_empty() && rng.chance(1, 8) {
+                    // asked by a task that owns one of the live guards
+                    writeln!(w, "availG {} {}", rng.pick(&handles), rng.pick(&live)).unwrap();
+                    continue;
+                }
                 // one in four askers polls inline when woken (wakers 4, 5)
                 let wk = if rng.chance(1, 4) { NW + rng.below(NI) } else { rng.below(NW) };
                 writeln!(w, "avail {} {wk}", rng.pick(&handles)).unwrap();
@@ -1597,6 +1838,8 @@ fn gen_c17(a: &Args, w: &mut dyn Write) {
     gen_lw_exhaustive(w, &["reg 0", "reg 1", "wake", "take", "dbg"], "lw default", if thorough { 7 } else { 5 }, &mut m);
     // re-entrant wakers: woken, 4 registers waker 1 and 5 registers itself on the same LocalWaker
     gen_lw_exhaustive(w, &["reg 0", "reg 4", "reg 5", "wake", "take"], "lw", if thorough { 7 } else { 6 }, &mut m);
+    // a waker whose drop (un-woken: displaced by the next register) calls wake() on the same LocalWaker
+    gen_lw_exhaustive(w, &["reg 0", "reg 4", "reg 5", "reg 6", "wake", "take"], "lw default", if thorough { 7 } else { 5 }, &mut m);
     // (4) random long histories, capacities 0..5, 4 wakers, clones, dropped handles, junk lines
     let mut rng = Rng::new(a.seed ^ 0x17);
     gen_counter_random(w, &mut rng, if thorough { 20000 } else { 1500 }, 40);
